@@ -107,6 +107,62 @@ pub fn run(ctx: &Ctx, rep: &mut Report) {
             }
         }
     }
+    // decodable groups: a valid message split into 2-3 fragments, decoding on. The type of each
+    // returned sentence is that of its *own* first payload character.
+    for i in 0..ctx.budget(3_000, 60_000) {
+        let br = r.pick(gen::BRANCHES);
+        let (chars, fill) = gen::gen_message(br, &mut r).to_armor();
+        if chars.len() < 6 {
+            continue;
+        }
+        let n = r.range(2, 3) as u8;
+        let mut cuts: Vec<usize> = Vec::new();
+        while cuts.len() + 1 < n as usize {
+            let c = r.usize(1, chars.len() - 1);
+            if !cuts.contains(&c) {
+                cuts.push(c);
+            }
+        }
+        cuts.sort();
+        cuts.push(chars.len());
+        let mut p = Parser::new();
+        let mut log = Vec::new();
+        let mut prev = 0;
+        for (j, c) in cuts.iter().enumerate() {
+            let part = &chars[prev..*c];
+            prev = *c;
+            let k = (j + 1) as u8;
+            let line = nmea_ref::mk(n, k, Some((i % 10) as u8), part, if k == n { fill } else { 0 });
+            let decode = k == n || r.bool();
+            rep.eval();
+            let res = p.parse(&line, decode);
+            log.push((line, decode));
+            let s = match res {
+                Call::Done(Outcome::Complete(s)) | Call::Done(Outcome::Incomplete(s)) => s,
+                _ => break,
+            };
+            let ch = part[0];
+            let want = armor::val(ch).unwrap();
+            if s.message_type == want {
+                agree += 1;
+                continue;
+            }
+            disagree += 1;
+            let sig = if s.message_type == ch >> 2 {
+                known += 1;
+                format!("{}:{}={}", KF_ARMORED, ch, s.message_type)
+            } else {
+                format!("wrong-type-in-decoded-group:{}", if k == n { "final" } else { "non-final" })
+            };
+            rep.class(format!("decoded-group|{}", if k == n { "final" } else { "non-final" }));
+            rep.violation(
+                PID,
+                sig,
+                format!("fragment {}/{} of a decodable group starts with {:?} (type {}), sentence reports message_type {}", k, n, ch as char, want, s.message_type),
+                || mon::replay_history(&log, "decoded-group"),
+            );
+        }
+    }
     rep.count_n("agree", agree);
     rep.count_n("disagree", disagree);
     rep.count_n("disagree_matching_known_signature", known);
